@@ -75,6 +75,10 @@ func sweepReplay(lg *sim.Log, path string, max int, seed int64) (int, error) {
 			risky[r] = true
 		}
 		p1 := w.Prods[0].ID
+		// every third behaviour: the positions that are not risky sit on the second product (another collateral), whose oracle price goes
+		// inactive at the drop - each of them is a unit of the sweep that FAILS (ratio not computable) and must not hold up the others
+		stuck := n%3 == 0
+		p2 := w.Prods[1].ID
 		step := func(a Act) Res {
 			rs := w.Do(a)
 			par, _ = w.Record(lg, par, run, root, a, rs)
@@ -85,6 +89,10 @@ func sweepReplay(lg *sim.Log, path string, max int, seed int64) (int, error) {
 			if risky[id] {
 				in = 30
 			}
+			if stuck && !risky[id] {
+				step(Act{A: "Create", U: fmt.Sprintf("u%d", id), P: p2, X: in, Y: 10})
+				return
+			}
 			step(Act{A: "Create", U: fmt.Sprintf("u%d", id), P: p1, X: in, Y: 40})
 		}
 		for k := 1; k <= d.N0; k++ {
@@ -94,6 +102,9 @@ func sweepReplay(lg *sim.Log, path string, max int, seed int64) (int, error) {
 			switch h.A {
 			case "Drop":
 				step(Act{A: "Price", D: "ucm", Y: 1, On: true})
+				if stuck {
+					step(Act{A: "Price", D: "uat", Y: 3, On: false})
+				}
 			case "Block":
 				if v1 {
 					step(Act{A: "V1Sweep"})
@@ -103,7 +114,11 @@ func sweepReplay(lg *sim.Log, path string, max int, seed int64) (int, error) {
 			case "Create":
 				create(h.ID)
 			case "Close":
-				step(Act{A: "Close", U: fmt.Sprintf("u%d", h.ID), P: p1, V: h.ID})
+				pc := p1
+				if stuck && !risky[h.ID] {
+					pc = p2
+				}
+				step(Act{A: "Close", U: fmt.Sprintf("u%d", h.ID), P: pc, V: h.ID})
 			}
 		}
 	}
